@@ -5,6 +5,7 @@ import (
 	"errors"
 	"fmt"
 	"io"
+	"os"
 	"reflect"
 	"strings"
 	"time"
@@ -359,6 +360,30 @@ func init() {
 		}
 		c.SetCase(string(ev.J(cs)))
 		r.Evaluations++
+		if depth >= 65536 && os.Getenv("VERIF_REPLAY_CASE") == "" {
+			// documents this deep can exhaust the goroutine stack of a recursive parser, which
+			// kills the process: each is run in a process of its own, so that this worker (and
+			// the rest of its shard) survives; a death must repeat 5 times to be reported
+			caseJ := ev.J(cs)
+			v, died, tail := ev.IsolatedReplay("C07", c, caseJ, 5*time.Minute)
+			if died {
+				n := 1
+				for k := 0; k < 4; k++ {
+					if _, d2, _ := ev.IsolatedReplay("C07", c, caseJ, 5*time.Minute); d2 {
+						n++
+					}
+				}
+				if n == 5 {
+					r.Violate(ev.Violation{Property: "C07", Key: "depth(" + shape + ",>4096):" + e.name + ":process-died", What: "process died (crash/hang) while running case",
+						Case: caseJ, Expected: "an ordinary, usable error value or success", Observed: "died in 5 of 5 isolated runs: " + tail})
+				} else {
+					r.Notes = append(r.Notes, fmt.Sprintf("case %s died in %d of 5 isolated runs: not reported", caseJ, n))
+				}
+			} else if v != nil {
+				r.Violate(*v)
+			}
+			return
+		}
 		t0 := time.Now()
 		if v, d := c07run(e, c07deepLeaf(shape, depth, closed, c07leaves[leaf])); v != "" {
 			cls := "<=4096"
